@@ -52,6 +52,12 @@ def extras(seed):
             trees = [[bool((k + j + 1) & 1), bool((k + j + 1) & 2), bool((k + j + 1) & 4)] for k in range(nt)]
             strs = [names[j % 3] if k == j else "TREE" for k in range(nt)]
             ms.append(dict(mask=[STR[strs[k]] if k == j else trees[k] for k in range(nt)], form="str", strs=strs, src="str_mixed"))
+        # the plain constructor with only some terms specified (each term alone, each pair of neighbours): the omitted terms default to
+        # the network parameters, whatever was given for the others
+        for j in range(nt):
+            for tree in ([False, True, False], [True, True, True], [False, False, True]):
+                for given in ([k == j for k in range(nt)], [k in (j, (j + 1) % nt) for k in range(nt)]):
+                    ms.append(dict(mask=[tree if given[k] else [True, False, False] for k in range(nt)], form="bool_partial", given=given, src="bool_partial"))
         # boolean trees written with their equation-parameter keys in another order, evaluated eagerly through a closure
         for a in range(24):
             bits = [[bool((a >> (k % 3)) & 1), bool(((a + k) >> 1) & 1), not bool(((a + k) >> 1) & 1)] for k in range(nt)]
